@@ -495,6 +495,9 @@ class VarDecl:
     c_type: str
     expr: str
     global_scope: bool = False
+    #: declaration lifted in front of a branch/loop only to give the name a scope (it
+    #: carries no assignment of the script)
+    placeholder: bool = False
 
 
 @dataclass
